@@ -7,8 +7,12 @@ VARIABLES sc, exp
 SeqsUpTo(n) == UNION {[1..k -> 1..Len(Tokens)] : k \in 0..n}
 TokSeq(l) == [i \in 1..Len(l) |-> Tokens[l[i]]]
 
+\* most behaviour needs a target directory: every pair of "interesting" tokens after (and before) a good directory
+WithDir == {<<DirTok>> \o s : s \in UNION {[1..k -> Interesting] : k \in 1..2}}
+           \cup {s \o <<DirTok>> : s \in [1..2 -> Interesting]}
+
 Scenarios ==
-  {[toks |-> s, env |-> "none"] : s \in SeqsUpTo(MaxLen) \cup ExtraSeqs}
+  {[toks |-> s, env |-> "none"] : s \in SeqsUpTo(MaxLen) \cup ExtraSeqs \cup WithDir}
   \cup {[toks |-> s, env |-> e] : s \in SeqsUpTo(EnvLen) \cup EnvSeqs, e \in {"half", "both"}}
 
 Init == sc \in Scenarios /\ exp = [exit |-> -1, report |-> FALSE]
